@@ -251,7 +251,21 @@ def lagrangian_bound(vars_, objective, constraints, weights, box):
     bounds = [(-box, box)] * lp.nx + [(None, None)] * (lp.n - lp.nx)
     res = _linprog(cvec, A_ub, b_ub, None, None, bounds)
     st = _status(res)
-    return {"status": st, "value": (float(res.fun) + c0) if st == "optimal" else None}
+    out = {"status": st, "value": (float(res.fun) + c0) if st == "optimal" else None, "x": None}
+    if st == "optimal":
+        # self-check of the epigraph construction: at the minimiser the LP value is the formula's value
+        x = lp.xsplit(res.x)
+        direct = float(objective.fn(x)[0]) if objective is not None else 0.0
+        scale = max(1.0, abs(direct))
+        for (tree, typ), w in zip(constraints, ws):
+            if w is not None:
+                t = float(w @ S._bc(tree.fn(x), tree.L))
+                direct += t
+                scale = max(scale, abs(t), float(np.abs(w) @ S._bc(tree.mg(x), tree.L)))
+        out["x"], out["direct"] = x, direct
+        assert abs(direct - out["value"]) <= 1e-7 * scale, ("oracle self-check: epigraph LP value %r, formula at its minimiser %r"
+                                                         % (out["value"], direct))
+    return out
 
 
 def rank_ok(vars_, constraints):
